@@ -11,6 +11,7 @@ import os
 from collections import Counter
 
 import vlib
+from props import c17gate
 
 
 def hx(s):
@@ -536,7 +537,7 @@ def run_election(ctx):
     if ctx.replay:
         rp = json.load(open(ctx.replay))
         scripts = [r["case"] for r in [rp["replay"]] + rp.get("more_cases", [])
-                   if isinstance(r, dict) and r.get("case") and not r["case"].startswith("G ")]
+                   if isinstance(r, dict) and r.get("case") and not r["case"].startswith(("G ", "X "))]
     else:
         scripts = gen_scripts(ctx)
     if not scripts:
@@ -596,4 +597,5 @@ def run(ctx):
         ctx.finish()
     run_ring(ctx)
     run_election(ctx)
+    c17gate.run_gate(ctx)
     ctx.finish()
